@@ -56,8 +56,9 @@ EXTENDS Num, Sequences, FiniteSets, TLC, SequencesExt, FiniteSetsExt, Folds
 CONSTANTS
   PREC,        \* LegacyDec unit
   IDORD,       \* epoch identifiers of interest in store (byte) order
-  DEVIATIONS   \* named deviations of the code from the intended behaviour that the model follows:
-               \*   "L11": AllocateTokensToStakers adds the WHOLE staker share to the community pool
+  DEVIATIONS   \* named variants of AllocateTokensToStakers the model can follow instead of the current tree:
+               \*   "L11": (defect, fixed in 311e836) adds the WHOLE staker share to the community pool
+               \*   "ACC": (fix proposal for lead L27) one entry per staker, powers of repeated entries accumulated
 
 Put(f, k, v) == [x \in DOMAIN f \cup {k} |-> IF x = k THEN v ELSE f[x]]
 Get(f, k)    == IF k \in DOMAIN f THEN f[k] ELSE N0
@@ -93,9 +94,20 @@ ToStakersD(dv, st, e, o, R) ==
             rm == NSub(acc.rem, r)
         IN [srew |-> AddTo(acc.srew, en.s, r), rem |-> rm, panic |-> acc.panic \/ NIsNeg(rm)]
       zero == [srew |-> st.srew, rem |-> R, panic |-> FALSE]
-      res  == IF NIsPos(total) THEN FoldLeft(step, zero, ents) ELSE zero
-      \* code: feePool.CommunityPool.Add(rewardToAllStakers...)   (lead L11)
-      \* intended: feePool.CommunityPool.Add(remaining...)
+      \* variant "ACC": the list holds every staker once (first occurrence), its power is the SUM of its entries
+      firsts == SelectSeq([i \in DOMAIN ents |-> [i |-> i, s |-> ents[i].s]],
+                          LAMBDA x : \A j \in 1..(x.i - 1) : ents[j].s # x.s)
+      acc(s) == FoldLeft(LAMBDA a, en : IF en.s = s THEN NAdd(a, en.p) ELSE a, N0, ents)
+      stepAcc(a, x) ==
+        LET fr == DecQuoTrunc(acc(x.s), total, PREC)
+            r  == DecMulTrunc(R, fr, PREC)
+            rm == NSub(a.rem, r)
+        IN [srew |-> AddTo(a.srew, x.s, r), rem |-> rm, panic |-> a.panic \/ NIsNeg(rm)]
+      res  == IF ~NIsPos(total) THEN zero
+              ELSE IF "ACC" \in dv THEN FoldLeft(stepAcc, zero, firsts)
+              ELSE FoldLeft(step, zero, ents)
+      \* code since 311e836: feePool.CommunityPool.Add(remaining...)
+      \* before (lead L11):  feePool.CommunityPool.Add(rewardToAllStakers...)
       cpAdd == IF "L11" \in dv THEN R ELSE res.rem
   IN [st |-> [st EXCEPT !.srew = res.srew, !.cp = NAdd(st.cp, cpAdd)], panic |-> res.panic]
 
